@@ -129,6 +129,49 @@ pub enum UnitOnly {
 #[derive(Clone, Copy, Debug, PartialEq, Eq, PartialOrd, Ord, Serialize, Deserialize)]
 pub struct IntKey(pub u16);
 
+#[derive(Clone, Debug, PartialEq, Serialize, Deserialize)]
+#[serde(tag = "t")]
+pub enum InternallyTagged {
+	A { x: (), y: u8 },
+	B { u: UnitStruct, m: std::marker::PhantomData<u8> },
+	C,
+	D { o: Option<bool>, s: String },
+}
+
+#[derive(Clone, Debug, PartialEq, Serialize, Deserialize)]
+#[serde(tag = "t", content = "c")]
+pub enum AdjacentlyTagged {
+	A(()),
+	B(u8, String),
+	C { u: (), n: i16 },
+	D,
+}
+
+#[derive(Clone, Debug, PartialEq, Serialize, Deserialize)]
+#[serde(untagged)]
+pub enum Untagged {
+	U { a: (), b: i32 },
+	V(String),
+	W(Vec<u8>),
+	X { only: UnitStruct },
+}
+
+#[derive(Clone, Debug, PartialEq, Serialize, Deserialize)]
+pub struct FlatInner {
+	pub u: (),
+	pub n: u8,
+	pub p: std::marker::PhantomData<String>,
+}
+
+#[derive(Clone, Debug, PartialEq, Serialize, Deserialize)]
+pub struct Flattening {
+	pub id: u32,
+	#[serde(flatten)]
+	pub inner: FlatInner,
+	#[serde(default, skip_serializing_if = "Option::is_none")]
+	pub opt: Option<i8>,
+}
+
 /// Serialized through `Serializer::collect_str`, read back from a string.
 #[derive(Clone, Copy, Debug, PartialEq, Eq, PartialOrd, Ord)]
 pub struct Shown(pub u32);
@@ -234,6 +277,10 @@ pub enum Datum {
 	Shown(Shown),
 	ShownKeys(BTreeMap<Shown, i8>),
 	Bytes(Bytes),
+	ITagged(InternallyTagged),
+	ATagged(AdjacentlyTagged),
+	Untagged(Untagged),
+	Flattening(Flattening),
 }
 
 macro_rules! gen_int {
@@ -322,7 +369,7 @@ fn gen_named(rng: &mut Rng, depth: usize) -> Named {
 }
 
 pub fn gen_datum(rng: &mut Rng, depth: usize) -> Datum {
-	let n = if depth >= 3 { 20 } else { 54 };
+	let n = if depth >= 3 { 20 } else { 58 };
 	let short = |rng: &mut Rng| -> usize { [0usize, 1, 1, 1, 2, 3][rng.below(6)] };
 	let sub = |rng: &mut Rng| gen_datum(rng, depth + 1);
 	let len = |rng: &mut Rng| [0, 1, 2, 3, 6][rng.below(5)];
@@ -398,7 +445,30 @@ pub fn gen_datum(rng: &mut Rng, depth: usize) -> Datum {
 		50 => Datum::EnumKeyed((0..short(rng)).map(|_| (gen_str(rng), gen_e(rng, depth + 1))).collect()),
 		51 => Datum::Shown(Shown(gen_int!(rng, u32))),
 		52 => Datum::ShownKeys((0..short(rng)).map(|_| (Shown(gen_int!(rng, u32)), gen_int!(rng, i8))).collect()),
-		_ => Datum::Bytes(Bytes((0..len(rng)).map(|_| gen_int!(rng, u8)).collect())),
+		53 => Datum::Bytes(Bytes((0..len(rng)).map(|_| gen_int!(rng, u8)).collect())),
+		54 => Datum::ITagged(match rng.below(4) {
+			0 => InternallyTagged::A { x: (), y: gen_int!(rng, u8) },
+			1 => InternallyTagged::B { u: UnitStruct, m: std::marker::PhantomData },
+			2 => InternallyTagged::C,
+			_ => InternallyTagged::D { o: [None, Some(true)][rng.below(2)], s: gen_str(rng) },
+		}),
+		55 => Datum::ATagged(match rng.below(4) {
+			0 => AdjacentlyTagged::A(()),
+			1 => AdjacentlyTagged::B(gen_int!(rng, u8), gen_str(rng)),
+			2 => AdjacentlyTagged::C { u: (), n: gen_int!(rng, i16) },
+			_ => AdjacentlyTagged::D,
+		}),
+		56 => Datum::Untagged(match rng.below(4) {
+			0 => Untagged::U { a: (), b: gen_int!(rng, i32) },
+			1 => Untagged::V(gen_str(rng)),
+			2 => Untagged::W((0..short(rng)).map(|_| gen_int!(rng, u8)).collect()),
+			_ => Untagged::X { only: UnitStruct },
+		}),
+		_ => Datum::Flattening(Flattening {
+			id: gen_int!(rng, u32),
+			inner: FlatInner { u: (), n: gen_int!(rng, u8), p: std::marker::PhantomData },
+			opt: [None, Some(-1)][rng.below(2)],
+		}),
 	}
 }
 
@@ -621,7 +691,7 @@ pub fn run_c16(cfg: &Config) -> i32 {
 		cfg,
 		EvidenceMeta {
 			id: "C16",
-			rule: "a case is an instance of the derive-annotated type family (54 top-level shapes: all integer widths at their bounds, f32/f64 incl. non-finite and subnormal, char, strings that look like numbers, unit, unit/newtype/tuple/named structs, an enum with unit/renamed/newtype/tuple/struct/empty-struct variants, options, tuples, arrays, sequences, newtype structs over sequences / one-element tuples and arrays / options / maps / enums / strings / unit, maps keyed by String, i8..i64, u8..u64, char, unit-variant enum, integer newtype; recursive nesting) generated from the seed; checked: (1) from_value(to_value(x)) == x whenever serde_json's own Value round trip returns x, (2) to_value(x) has the same JSON shape as serde_json::to_value(x), (3) from_value(from_serde_json(serde_json::to_value(x))) == x, (4) from_value(parse(serde_json::to_string(x))) == x, under the same proviso; plus raw f64/f32 bit patterns through to_value/from_value; distinct by hash of the Debug rendering",
+			rule: "a case is an instance of the derive-annotated type family (58 top-level shapes: all integer widths at their bounds, f32/f64 incl. non-finite and subnormal, char, strings that look like numbers, unit, unit/newtype/tuple/named structs, an enum with unit/renamed/newtype/tuple/struct/empty-struct variants, options, tuples, arrays, sequences, newtype structs over sequences / one-element tuples and arrays / options / maps / enums / strings / unit, internally / adjacently tagged and untagged enums and flattened structs with unit-like fields, collect_str and bytes types, maps keyed by String, i8..i64, u8..u64, char, unit-variant enum, integer newtype; recursive nesting) generated from the seed; checked: (1) from_value(to_value(x)) == x whenever serde_json's own Value round trip returns x, (2) to_value(x) has the same JSON shape as serde_json::to_value(x), (3) from_value(from_serde_json(serde_json::to_value(x))) == x, (4) from_value(parse(serde_json::to_string(x))) == x, under the same proviso; plus raw f64/f32 bit patterns through to_value/from_value; distinct by hash of the Debug rendering",
 			exhaustive: false,
 			assumptions: vec![
 				"serde_json 1.0.x with default features is the stated reference; data serde_json itself cannot round-trip (non-finite floats, Some(None), ...) are excluded from the round-trip relations".into(),
@@ -796,9 +866,11 @@ fn inject_token(rng: &mut Rng, r: &mut RVal) -> bool {
 		}
 		RVal::Obj(o) => {
 			if !o.is_empty() && !o.iter().any(|e| e.0 == TOKEN) && rng.chance(1, 2) {
-				o[0].0 = TOKEN.to_string();
+				// mostly in first position (the known class K5), sometimes elsewhere (must behave as an ordinary key)
+				let at = if rng.chance(2, 3) { 0 } else { rng.below(o.len()) };
+				o[at].0 = TOKEN.to_string();
 				if rng.chance(1, 2) {
-					o[0].1 = RVal::Str(["12", "1.5e3", "x", ""][rng.below(4)].to_string());
+					o[at].1 = RVal::Str(["12", "1.5e3", "x", ""][rng.below(4)].to_string());
 				}
 				return true;
 			}
@@ -818,7 +890,7 @@ fn gen_c17_number(rng: &mut Rng) -> String {
 	match rng.below(12) {
 		0 => ["0", "-0", "1", "-1", "9223372036854775807", "-9223372036854775808", "9223372036854775808", "18446744073709551615"][rng.below(8)].to_string(),
 		1 => ["18446744073709551616", "-9223372036854775809", "123456789012345678901234567890", "1e5", "1E0", "0e0", "-0e0", "12e+2"][rng.below(8)].to_string(),
-		2 => ["-0.0", "0.0", "1.0", "1.50", "0.1e1", "100.0e-2", "-0.0e0", "1.5E+3"][rng.below(8)].to_string(),
+		2 => ["-0.0", "0.0", "1.0", "1.50", "0.1e1", "100.0e-2", "-0.0e0", "1.5E+3", "1.5e400", "-6.02E1000", "1.7976931348623159e308", "1.0e309", "0.1e-400", "602214076000000.0e10"][rng.below(14)].to_string(),
 		3 => (rng.next_u64() >> rng.below(64)).to_string(),
 		4 => (rng.next_u64() as i64 >> rng.below(64)).to_string(),
 		5..=6 => {
@@ -1166,8 +1238,10 @@ fn js_equiv(a: &RVal, b: &RVal, path: &mut String) -> Result<u64, String> {
 		}
 		(RVal::Obj(x), RVal::Obj(y)) if x.len() == y.len() => {
 			let mut k = 0;
+			let index: std::collections::HashMap<&str, usize> = if y.len() > 32 { y.iter().enumerate().map(|(i, e)| (e.0.as_str(), i)).collect() } else { Default::default() };
 			for (key, p) in x {
-				let Some((_, q)) = y.iter().find(|e| e.0 == *key) else { return Err(format!("at {}: key {:?} lost", path, key)) };
+				let found = if y.len() > 32 { index.get(key.as_str()).map(|&i| &y[i]) } else { y.iter().find(|e| e.0 == *key) };
+				let Some((_, q)) = found else { return Err(format!("at {}: key {:?} lost", path, key)) };
 				let l = path.len();
 				path.push_str(&format!(".{:?}", key));
 				k += js_equiv(p, q, path)?;
@@ -1262,6 +1336,15 @@ pub fn run_c18(cfg: &Config) -> i32 {
 					let d = rng.range(100, 300);
 					rep.max("deepest_converted_nesting", d as u64);
 					gen_deep_sj(&mut rng, d)
+				} else if k == 10 && i < 4 {
+					// containers beyond any 64 Ki block of a bulk conversion path
+					let n = [131_073usize, 200_001, 65_537, 70_000][i];
+					rep.max("widest_converted_container", n as u64);
+					if i % 2 == 0 {
+						serde_json::Value::Array((0..n).map(|j| serde_json::Value::from(j as u64)).collect())
+					} else {
+						serde_json::Value::Object((0..n).map(|j| (format!("k{}", j), serde_json::Value::from(j as u64))).collect())
+					}
 				} else {
 					gen_sj_value(&mut rng, 0)
 				};
@@ -1287,6 +1370,14 @@ pub fn run_c18(cfg: &Config) -> i32 {
 					let d = rng.range(100, 300);
 					rep.max("deepest_converted_nesting", d as u64);
 					gen_deep_rval(&mut rng, d)
+				} else if k == 11 && i < 4 {
+					let n = [131_073usize, 200_001, 65_537, 70_000][i];
+					rep.max("widest_converted_container", n as u64);
+					if i % 2 == 0 {
+						RVal::Arr((0..n).map(|j| RVal::Num(j.to_string())).collect())
+					} else {
+						RVal::Obj((0..n).map(|j| (format!("k{}", j), RVal::Num(j.to_string()))).collect())
+					}
 				} else {
 					gen_c17_value(&mut rng, k % 16 == 3)
 				};
